@@ -1,5 +1,6 @@
 import ColaVerif.DriverLib
 import ColaVerif.Model.Unary
+import ColaVerif.Model.KrylovExact
 
 /-!
 Line-protocol driver of C09 (matrix functions).  One JSON case per input line:
@@ -11,6 +12,13 @@ every argument) — the CODE value (the matrix `den` of the planned operator `Un
 `to_dense` / `@` of an operator tree agree with `den` is C01) and the SPEC value (`f` of the
 represented matrix, computed from `den` alone: matrix powers for integer exponents, entrywise on a
 diagonal `den` otherwise).
+Krylov base cases (`LanczosUnary` / `ArnoldiUnary`) with a POLYNOMIAL scalar function (`cube`, `poly`, `x ** k` for
+an integer `k ≥ 10`) on exact payloads are evaluated by the exact Krylov MODEL (`Model/KrylovExact.lean`: the
+un-normalised Lanczos / Arnoldi recurrence over ℚ[i] run to exhaustion for every identity column, `A Q = Q H`
+re-checked, value `Q p(H) e₁` — `C09_krylov_poly`), so that on those cases the CODE value is computed through the
+small matrix and the SPEC value through powers of the big one.  For non-polynomial functions the eigenvalues of the
+small matrix are not in ℚ[i]: there the Krylov value is not computed exactly (`exact = false`) and the harness compares
+by tolerance only.
 Run with `lake env lean --run DriverC09.lean < cases.jsonl`.
 -/
 
@@ -56,6 +64,13 @@ def Fn.opt : Fn → GRat → Option GRat
   | .poly, z => some (z * z + 1)
 
 def Fn.total (f : Fn) : GRat → GRat := fun z => (f.opt z).getD 0
+
+/-- coefficients (constant term first) when the function is a polynomial -/
+def Fn.polyCoeffs : Fn → Option (List GRat)
+  | .cube => some [0, 0, 0, 1]
+  | .poly => some [1, 0, 1]
+  | .pow α => if α.den = 1 ∧ 0 ≤ α.num then some (List.replicate α.num.toNat 0 ++ [1]) else none
+  | _ => none
 
 /-! ## exact linear algebra for the SPEC side -/
 
@@ -163,17 +178,56 @@ def powPlanStr : PowPlan → String
   | .identity => "identity" | .product k => s!"product {k}" | .inverse => "inverse" | .generic => "generic"
 
 /-- all `inv` nodes of the plan have an invertible operand (then the oracle is the exact inverse) -/
-def invsOk : UnOp GRat → Bool
+def invsOk (poly : Bool) : UnOp GRat → Bool
   | .inv A _ => A.rows = A.cols && (gaussInv A.rows (evalOp false A).f).isSome
-  | .bdiag Us _ => (Us.map invsOk).all id
-  | .kron Us => (Us.map invsOk).all id
-  | .transpose U => invsOk U
-  | .adjoint U => invsOk U
+  | .bdiag Us _ => (Us.map (invsOk poly)).all id
+  | .kron Us => (Us.map (invsOk poly)).all id
+  | .transpose U => invsOk poly U
+  | .adjoint U => invsOk poly U
+  | .base .lanczos _ A => poly && A.rows = A.cols
+  | .base .arnoldi _ A => poly && A.rows = A.cols
   | .base .. => false
   | _ => true
 
-def exactParams : Params GRat where
-  base := fun _ _ _ => zeroM
+/-- the matrix of a Krylov operator for a polynomial function, by the exact Krylov model: column `i` is
+`Qᵢ p(Hᵢ) e₁` of the factorisation started from `e_i` (`none`: the invariance re-check failed) -/
+def krylovEntry (coeffs : List GRat) (A : Op GRat) (a i : Nat) : GRat :=
+  let n := A.rows
+  let Da := KrylovExact.toRows n (evalOp false A).f
+  match KrylovExact.applyPoly n Da (KrylovExact.unitVec n i) coeffs with
+  | some col => KrylovExact.vget col a
+  | none => 0
+
+/-- every Krylov base node of the plan passes the invariance re-check on every identity column -/
+def krylovChecks : UnOp GRat → Bool
+  | .base .lanczos _ A => (List.range A.rows).all fun i =>
+      (KrylovExact.arnoldi A.rows (KrylovExact.toRows A.rows (evalOp false A).f) (KrylovExact.unitVec A.rows i) A.rows).check
+        A.rows (KrylovExact.toRows A.rows (evalOp false A).f) (KrylovExact.unitVec A.rows i)
+  | .base .arnoldi _ A => (List.range A.rows).all fun i =>
+      (KrylovExact.arnoldi A.rows (KrylovExact.toRows A.rows (evalOp false A).f) (KrylovExact.unitVec A.rows i) A.rows).check
+        A.rows (KrylovExact.toRows A.rows (evalOp false A).f) (KrylovExact.unitVec A.rows i)
+  | .bdiag Us _ => (Us.map krylovChecks).all id
+  | .kron Us => (Us.map krylovChecks).all id
+  | .transpose U => krylovChecks U
+  | .adjoint U => krylovChecks U
+  | _ => true
+
+/-- Krylov dimensions of the identity columns at the Krylov base nodes (evidence) -/
+def krylovGrades : UnOp GRat → List (List Nat)
+  | .base .lanczos _ A => [KrylovExact.grades A.rows (KrylovExact.toRows A.rows (evalOp false A).f)]
+  | .base .arnoldi _ A => [KrylovExact.grades A.rows (KrylovExact.toRows A.rows (evalOp false A).f)]
+  | .bdiag Us _ => (Us.map krylovGrades).flatten
+  | .kron Us => (Us.map krylovGrades).flatten
+  | .transpose U => krylovGrades U
+  | .adjoint U => krylovGrades U
+  | _ => []
+
+def exactParams (coeffs : Option (List GRat)) : Params GRat where
+  base := fun k _ A =>
+    match k, coeffs with
+    | .lanczos, some cs => krylovEntry cs A
+    | .arnoldi, some cs => krylovEntry cs A
+    | _, _ => zeroM
   inv := fun A _ => ((gaussInv A.rows (evalOp false A).f).getD zeroM)
 
 def jAlg (s : String) : E Alg :=
@@ -206,8 +260,12 @@ def handle (j : Json) : E String := do
   let raise := match U.firstRaise with | some e => "\"" ++ e ++ "\"" | none => "null"
   let clauses : List String := []
   let square := A.rows == A.cols
-  let exact := U.ok && square && invsOk U && U.fArgs.all (fun z => (f.opt z).isSome)
-  let B := U.toOp exactParams
+  let coeffs := f.polyCoeffs
+  let exact := U.ok && square && invsOk coeffs.isSome U && U.fArgs.all (fun z => (f.opt z).isSome) &&
+    (!U.needsOracle || krylovChecks U)
+  let B := U.toOp (exactParams coeffs)
+  let kmodel := exact && !(krylovGrades U).isEmpty
+  let grades := "[" ++ ",".intercalate ((krylovGrades U).map (fun g => "[" ++ ",".intercalate (g.map toString) ++ "]")) ++ "]"
   let code := if exact then showMat B.rows B.cols (evalOp true B).f else "null"
   let spec := if square then
       match specFn f A.rows (evalOp false A).f with
@@ -216,7 +274,7 @@ def handle (j : Json) : E String := do
     else "null"
   pure ("{\"id\":" ++ id.compress ++ s!",\"rows\":{A.rows},\"cols\":{A.cols},\"dtype\":\"{A.dtype.toString}\",\"wf\":{A.wf},\"psd\":{A.isa .psd},\"selfadjoint\":{A.isa .selfAdjoint}"
     ++ ",\"plan\":" ++ planJson U ++ ",\"powplan\":\"" ++ pp ++ "\",\"raise\":" ++ raise
-    ++ ",\"clauses\":" ++ showStrs clauses ++ ",\"op_clauses\":" ++ showStrs B.clauses ++ s!",\"needs_oracle\":{U.needsOracle},\"exact\":{exact}"
+    ++ ",\"clauses\":" ++ showStrs clauses ++ ",\"op_clauses\":" ++ showStrs B.clauses ++ s!",\"needs_oracle\":{U.needsOracle},\"exact\":{exact},\"krylov_model\":{kmodel},\"krylov_grades\":{grades}"
     ++ ",\"code\":" ++ code ++ ",\"spec\":" ++ spec ++ "}")
 
 def main : IO Unit := driverMain handle
